@@ -70,6 +70,8 @@ func newMachine(rt *rapid.T, o machineOpts) *machine {
 	if o.InitBlocks == [2]int{} {
 		o.InitBlocks = [2]int{1, 8}
 	}
+	// the thorough tier explores longer chains
+	o.InitBlocks[1] = scale(o.InitBlocks[1], 3*o.InitBlocks[1])
 	if len(o.Starts) == 0 {
 		o.Starts = []string{"zero", "one", "mid"}
 	}
